@@ -5,7 +5,7 @@ from contracts.spec_tree import *
 
 @contract(OPS + 'fm_leaf_features.py', 'get_leaf_features', prop='C16')
 class GetLeafFeatures:
-    lemmas = ('lemma_leaf_iff_no_relation',)
+    lemmas = ('lemma_children_ge_relations', 'lemma_leaf_iff_no_relation')
 
     def pre(feature_model):
         return wf()
@@ -51,7 +51,7 @@ class MaxDepthTree:
 
 @contract(OPS + 'fm_average_branching_factor.py', 'average_branching_factor', prop='C16')
 class AverageBranchingFactor:
-    lemmas = ('lemma_children_count', 'lemma_leaf_iff_no_relation')
+    lemmas = ('lemma_children_count', 'lemma_children_ge_relations', 'lemma_leaf_iff_no_relation')
 
     def pre(feature_model, precision):
         return wf()
